@@ -128,7 +128,7 @@ class Stepper:
             return st.sampled_from([{'op': 'check_restored'}, {'op': 'resolve'}])
         return st.sampled_from([{'op': 'next_section'}, {'op': 'next_section'}, {'op': 'next_section'}, {'op': 'verify'}, {'op': 'tifa'}, {'op': 'run'},
                                 {'op': 'verify'}, {'op': 'run'}, {'op': 'tifa'}, {'op': 'verify'}, {'op': 'run'}, {'op': 'next_section'},
-                                {'op': 'call'}, {'op': 'evaluate'}, {'op': 'call'}, {'op': 'stop_sections'}, {'op': 'resolve'}])
+                                {'op': 'call'}, {'op': 'evaluate'}, {'op': 'call'}, {'op': 'cait'}, {'op': 'cait'}, {'op': 'stop_sections'}, {'op': 'resolve'}])
 
     # ------------------------------------------------------------------
     def active_reference(self):
@@ -229,6 +229,29 @@ class Stepper:
                                                                    'file gives %r' % (self.section, self.mode(), sorted(got)[:6], sorted(want)[:6])))
                 elif got:
                     self.note_diag()
+            elif kind == 'cait':
+                # CAIT is one of "the tools": the tree it works on is the active section's, whatever was verified or matched before
+                code, positioned = self.active_reference()
+                if code is None:
+                    return viol
+                try:
+                    want = ast.dump(ast.parse(code))
+                except (SyntaxError, ValueError):
+                    return viol
+                from pedal.cait.cait_api import parse_program, find_asts
+                tree = parse_program()
+                got = ast.dump(tree.astNode)
+                self.flags.add('cait-in-section')
+                if got != want:
+                    viol.append(V('C17|presented-code|cait|%s' % self.mode(), 'CAIT works on a tree that is not the active section %d (%s): it holds %d nodes, the section has %d; '
+                                                                             'tree starts %r' % (self.section, self.mode(), len(list(ast.walk(tree.astNode))),
+                                                                                                 len(list(ast.walk(ast.parse(code)))), ast.unparse(tree.astNode)[:80])))
+                else:
+                    n_names = len(find_asts('Name'))
+                    n_want = sum(isinstance(n, ast.Name) for n in ast.walk(ast.parse(code)))
+                    if n_names != n_want:
+                        viol.append(V('C17|presented-code|cait-find|%s' % self.mode(), "find_asts('Name') returns %d nodes in section %d, the section has %d"
+                                      % (n_names, self.section, n_want)))
             elif kind == 'run':
                 code, positioned = self.active_reference()
                 if code is None:
